@@ -261,7 +261,7 @@ def main():
     for r in info:
         if r["error"]:
             bad.append(f"{r['function']} not translated: {r['error']}")
-    tg = {t.lean: t for t in py2lean.TARGETS}
+    tg = {t.lean: t for t in py2lean.TARGETS if isinstance(t, Target)}
     rng = random.Random(0)
     checks = []
 
@@ -293,6 +293,8 @@ def main():
     for c, dd in itertools.product(range(-6, 7), range(0, 12)):
         checks.append((f"precond_dim {c} {dd}", f"{call_text('precondDim', tg['precondDim'], (c, dd))} == {lit(int(ds._precond_dim(c, dd)), 'int')}"))
         checks.append((f"should_compress {c} {dd}", f"{call_text('shouldCompress', tg['shouldCompress'], (c, dd))} == {lit(bool(ds._should_compress(c, dd)), 'bool')}"))
+    for n, dd in itertools.product(range(0, 14), range(1, 7)):
+        checks.append((f"to_pad {n} {dd}", f"PrecondVerif.Gen.toPad ({n} : Int) ({dd} : Int) == {lit(-n % dd, 'int')}"))
     bad += ["real-target mismatch: " + x for x in lean_eval(text, checks)]
     print(f"py2lean selftest: {nsyn} synthetic evaluations, {len(BAD)} rejected constructs, {len(checks)} real-target evaluations, "
           f"{len(bad)} problems")
